@@ -383,8 +383,13 @@ def main():
     json.dump(ev, open(tmp, "w"), indent=1, default=str)
     os.replace(tmp, evfile)
 
+    agg = {}
     for kf, v in known_hits:
-        log("KNOWN-FINDING: property=%s %s [%s] (seen %d times in this run)" % (prop, kf.get("what", ""), kf["key"], v.get("count", 1)))
+        a = agg.setdefault(kf["key"], [kf, 0, 0])
+        a[1] += 1
+        a[2] += v.get("count", 1)
+    for kf, nkeys, cnt in agg.values():
+        log("KNOWN-FINDING: property=%s %s [%s] (%d violation classes, seen %d times in this run)" % (prop, kf.get("what", ""), kf["key"], nkeys, cnt))
     for r in inconclusive[:10]:
         log("INCONCLUSIVE property=%s reason=%s" % (prop, r))
     for i, (v, rp) in enumerate(zip(new_viol, replay_paths)):
